@@ -44,13 +44,15 @@ def defaultIdleTimeout : Nat := 300
 def defaultMinConnections : Nat := 0
 def defaultMaxConnections : Nat := 10
 
-def kConnect : Str := lit "connect_timeout"
-def kIdle : Str := lit "idle_timeout"
-def kMax : Str := lit "max_connections"
-def kMin : Str := lit "min_connections"
-def kSchema : Str := lit "schema"
-def kAdminAcct : Str := lit "admin_account"
-def kAdminPass : Str := lit "admin_password"
+/-! the seven names, as bytes (explicit lists: a `lit "…"` is re-evaluated at every use by `decide`); checked against the text below -/
+def kConnect : Str := [0x63, 0x6F, 0x6E, 0x6E, 0x65, 0x63, 0x74, 0x5F, 0x74, 0x69, 0x6D, 0x65, 0x6F, 0x75, 0x74]        -- "connect_timeout"
+def kIdle : Str := [0x69, 0x64, 0x6C, 0x65, 0x5F, 0x74, 0x69, 0x6D, 0x65, 0x6F, 0x75, 0x74]        -- "idle_timeout"
+def kMax : Str := [0x6D, 0x61, 0x78, 0x5F, 0x63, 0x6F, 0x6E, 0x6E, 0x65, 0x63, 0x74, 0x69, 0x6F, 0x6E, 0x73]        -- "max_connections"
+def kMin : Str := [0x6D, 0x69, 0x6E, 0x5F, 0x63, 0x6F, 0x6E, 0x6E, 0x65, 0x63, 0x74, 0x69, 0x6F, 0x6E, 0x73]        -- "min_connections"
+def kSchema : Str := [0x73, 0x63, 0x68, 0x65, 0x6D, 0x61]        -- "schema"
+def kAdminAcct : Str := [0x61, 0x64, 0x6D, 0x69, 0x6E, 0x5F, 0x61, 0x63, 0x63, 0x6F, 0x75, 0x6E, 0x74]        -- "admin_account"
+def kAdminPass : Str := [0x61, 0x64, 0x6D, 0x69, 0x6E, 0x5F, 0x70, 0x61, 0x73, 0x73, 0x77, 0x6F, 0x72, 0x64]        -- "admin_password"
+example : kConnect = lit "connect_timeout" ∧ kIdle = lit "idle_timeout" ∧ kMax = lit "max_connections" ∧ kMin = lit "min_connections" ∧ kSchema = lit "schema" ∧ kAdminAcct = lit "admin_account" ∧ kAdminPass = lit "admin_password" := by decide
 
 /-- the seven parameters `new` takes out of the query, in the order of the code -/
 def consumed : List Str := [kConnect, kIdle, kMax, kMin, kSchema, kAdminAcct, kAdminPass]
@@ -147,6 +149,12 @@ def pgNew (o : Options) : Except Fail PgOpts :=
 def pgNewOfUri (uri : Str) : Except Fail PgOpts := pgNew (parseUri uri)
 
 /-! ### what the theorems compare with -/
+
+/-- a numeric field `n` is what the parameter says: the default when it is absent, else the value `FromStr` gives its text -/
+def NumReads (x : Option Str) (bits dflt n : Nat) : Prop :=
+  match x with
+  | none => n = dflt
+  | some v => parseUnsigned bits v = some n
 
 /-- `o` without the seven consumed parameters — everything else as it is -/
 def withoutConsumed (o : Options) : Options := { o with query := o.query.filter fun e => !consumed.contains e.1 }
